@@ -9,7 +9,14 @@ PROP = {
                   "real BudgetAggregator in a loop with the real TxPublisher over several blocks, faults injected at "
                   "the wallet/mempool boundary: the fee function and every transaction of every (re)grouped request "
                   "are judged against the rate each of its inputs was last offered at and the budgets attached to "
-                  "the inputs"),
+                  "the inputs; "
+                  "(4) the same loop with the input lifecycle of the real UtxoSweeper driven by the harness as the "
+                  "caller and the chain: real SweepInput / UpdateParams calls whose messages the harness, playing the "
+                  "collector, feeds to handleNewInput / handleExistingInput / handleUpdateReq, spend notifications "
+                  "through the sweeper's own subscriptions (handleInputSpent), own sweeps confirming, answers of "
+                  "wallet / mempool / signer scripted per (lead input, block); judged with the oracle code of (3) "
+                  "against the budgets / deadlines the caller had attached when the request was built, plus the "
+                  "per-transaction clauses and the ceiling at deadline-1 on every live record"),
     "level_text": ("Fee function: 4e5 (quick) / 1e8 (thorough) generated (ending rate, conf target 0..3000, estimator "
                    "answer incl. below floor / above max / error, explicit start, block pattern) runs; after every "
                    "Increment/IncreaseFeeRate: never decreases, never above the ending rate, start >= relay floor, "
@@ -38,13 +45,52 @@ PROP = {
                    "it spends, all inputs of the request exactly once; a request given up with ErrNotEnoughBudget "
                    "although the budgets attached to its inputs cover rate x size counts as ceiling not reached "
                    "(regroup_ceiling). The populations carry the same optional input attributes (relative timelocks, "
-                   "unconfirmed parents incl. shared ones and anchors) as the publisher's."),
+                   "unconfirmed parents incl. shared ones and anchors) as the publisher's. Lifecycle: 1.6e4 / 1.2e6 "
+                   "generated populations (as regroup's) over 9-30 blocks in which every input enters through the real "
+                   "SweepInput (optionally with a starting fee rate, or with an own earlier sweep in the mempool + "
+                   "sweeper store: decideRBFInfo), at the start or in a later block, incl. deadlines at / behind the "
+                   "current height, Immediate, shared exclusive groups; per block a PRNG script of caller / chain "
+                   "events: re-offer of a pending input in every state (Init / PendingPublish / Published / "
+                   "PublishFailed) with changed budget (half / double / random), deadline (sooner / later / past / "
+                   "none), Immediate, exclusive group, starting fee rate; UpdateParams likewise (also of unknown "
+                   "inputs); offer again after the sweeper gave the input up (fatal / excluded); the latest own sweep "
+                   "confirms (TxConfirmed), an earlier own sweep confirms (TxUnknownSpend with our tx), a third party "
+                   "spends an input, an earlier own sweep of a sub-set and a third-party spend hit one request; the "
+                   "sweeper's spend subscriptions are served before its block handler or after the publisher's; "
+                   "answers per (lead input, block) of testmempoolaccept (ok / insufficient fee / mempool min fee / "
+                   "min relay fee / mempool fee / too-long-mempool-chain / generic / missing inputs with and without "
+                   "spend / not implemented, for the first n calls of the block), publish and the signer (input "
+                   "script creation fails), hitting the initial broadcast, the first and later bumps, with further "
+                   "blocks following. Every tx handed to the wallet: fee <= sum of the budgets the caller had attached "
+                   "to its inputs when the request was built, fee*1000 <= MaxFeeRate*weight, all inputs of its request "
+                   "exactly once, no output below dust; per input the offered rates never fall below min(previous "
+                   "rate, ceiling of the request) across requests / blocks (baseline: a starting rate the caller or "
+                   "the mempool supplied, then every tx handed over); every record the publisher still monitors at "
+                   "height >= attached deadline-1 has its fee function at min(attached budgets / size, MaxFeeRate); "
+                   "give-ups as in regroup."),
     "level_note": ("Sampled. Inputs are harness inputs with real StandardWitnessTypes whose witnesses are crafted at the "
                    "type's size upper bound (worst-case signatures), so the signed weight equals lnd's estimate; shorter "
                    "real signatures raise the effective rate by <1% and are not modelled. The sweeper is driven "
                    "synchronously (its collector goroutine is replaced by the harness calling the same handlers in the "
-                   "same order; handleNewInput / the spend-notification path / confirmations of own sweeps are not "
-                   "driven: inputs are put into the pending map, third-party spends reach it through the publisher). "
+                   "same order). In the regroup unit handleNewInput / the spend-notification path / confirmations "
+                   "of own sweeps are not driven (inputs are put into the pending map, third-party spends reach the "
+                   "sweeper through the publisher); the lifecycle unit drives them: the real SweepInput / UpdateParams / "
+                   "monitorSpend goroutines put their messages on the sweeper's channels, the harness takes them and "
+                   "calls the collector's handlers in the collector's order (loop-top updateSweeperInputs, handler, "
+                   "immediate sweep), one deterministic interleaving per case (spend notifications of one event sorted "
+                   "by input; served before the sweeper's block handler or after the publisher's); races between the "
+                   "collector's channels, reorgs, a restart of the sweeper, the aux sweeper and a neutrino backend are "
+                   "not explored there. Lifecycle attribution: a tx is attributed to the request whose record is being "
+                   "initialised, else to the live request with exactly its inputs (each sweep address is handed out "
+                   "once); txs of two live requests with the same inputs and no change output (~0.1%) are judged "
+                   "against the larger budget and not for monotonicity. Fee rate decreases the caller itself brings "
+                   "about are diagnostics, counted as life_decrease_*: (a) an input re-offered / updated WITHOUT a "
+                   "starting fee rate while it carried one (handleExistingInput / handleUpdateReq replace the params, "
+                   "the retry starts from the estimator; ~1e3 per quick run), (b) an input the caller put into a "
+                   "second live request (UpdateParams on a published input, or offered again while an old record "
+                   "lives). After an offer of an input the sweeper had given up the baseline restarts. The lifecycle "
+                   "ceiling oracle skips requests whose inputs carry no caller-attached deadline (default deadline) "
+                   "or different ones. "
                    "Groupings inside lnd follow Go map iteration and an unstable sort, so counters vary by ~0.01% "
                    "between runs of one seed; verdicts are per-request invariants. Two fingerprint classes of "
                    "regroup_feerate_monotone (key suffixes +carried-rate-wiped-by-txfailed-without-fee-rate, "
@@ -71,7 +117,11 @@ PROP = {
              "one request; distinct (#inputs bucket, #requests, MaxInputsPerTx, request mixing different earlier "
              "rates, earlier rate above the ceiling, wallet top-up, locktimes, exclusive, immediate, late arrivals, "
              "#requests with tx bucket, buckets of #failed / #fatal / #unknown-spend / #replaced results, #later-round "
-             "requests bucket, request with an unconfirmed parent)."),
+             "requests bucket, request with an unconfirmed parent); lifecycle: a case is non-trivial when the sweeper "
+             "built at least one request; distinct (#inputs bucket, #requests, #later-round requests, #requests with tx, "
+             "set of caller events applied by (kind, state of the input), set of (stage, answer) faults that hit a tx, "
+             "buckets of #confirmed / #failed / #fatal / #unknown-spend / #replaced results, ceiling checked, request "
+             "mixing different earlier rates)."),
     "assumptions": [
         "required outputs / aux outputs supplied by the caller are themselves not dust",
         "witnesses have the size upper bound of their witness type",
@@ -80,7 +130,7 @@ PROP = {
     "units": [
         {
             "name": "feefunction", "pkg": "sweep", "test": "TestVerifC18FeeFunction",
-            "files": ["sweep/c18_test.go"],
+            "files": ["sweep/c18_test.go", "sweep/c18life_test.go"],
             "shards": {"quick": 8, "thorough": 16},
             "floors": {
                 "quick": {"cases": 200000, "oracle_ff_monotone_evals": 4000000, "oracle_ff_capped_evals": 4000000,
@@ -93,7 +143,7 @@ PROP = {
         },
         {
             "name": "publisher", "pkg": "sweep", "test": "TestVerifC18Publisher",
-            "files": ["sweep/c18_test.go"],
+            "files": ["sweep/c18_test.go", "sweep/c18life_test.go"],
             "shards": {"quick": 8, "thorough": 16},
             "floors": {
                 "quick": {"cases": 12000, "oracle_pub_budget_evals": 40000, "oracle_pub_maxrate_evals": 40000,
@@ -122,7 +172,7 @@ PROP = {
         },
         {
             "name": "regroup", "pkg": "sweep", "test": "TestVerifC18Regroup",
-            "files": ["sweep/c18_test.go"],
+            "files": ["sweep/c18_test.go", "sweep/c18life_test.go"],
             "shards": {"quick": 8, "thorough": 16},
             "floors": {
                 "quick": {"cases": 15000, "regroup_blocks": 165000, "regroup_requests": 90000,
@@ -160,6 +210,15 @@ PROP = {
                              "regroup_txs_with_parent_below_offered_rate": 4600000,
                              "regroup_txs_with_parents_at_or_above_offered_rate": 1900000,
                              "oracle_regroup_gave_up_evals": 1000},
+            },
+        },
+        {
+            "name": "lifecycle", "pkg": "sweep", "test": "TestVerifC18Lifecycle",
+            "files": ["sweep/c18_test.go", "sweep/c18life_test.go"],
+            "shards": {"quick": 8, "thorough": 16},
+            "floors": {
+                "quick": {},
+                "thorough": {},
             },
         },
     ],
